@@ -83,4 +83,43 @@ def check(facts):
     r.stats["narrowing_casts"] = total
     r.stats["auto_accepted_const_or_masked"] = auto
     r.floor("narrowing_casts", total, 10)
+    # FAILEDNARROW: a checked narrowing (`try_into` / `try_from` on integers) that fails means "this value is not representable" —
+    # its failure is propagated, tested or unwrapped, never replaced by an integer (`unwrap_or(0)`, `unwrap_or_default()`,
+    # `map_or(0, ..)`): the substitute is a genuine member value (0 is NUL), so a non-representable character matches `[\0-\x7F]`
+    SUBST = {"unwrap_or", "unwrap_or_default", "unwrap_or_else", "map_or", "map_or_else"}
+    INT = re.compile(r"^(u|i)(8|16|32|64|128|size)$")
+    ntry = 0
+    for fn in sorted(facts.body_names()):
+        if "::tests::" in fn:
+            continue
+        b = facts.body(fn)
+        k = 0
+        for bb, t in b.iter_calls():
+            if (t.get("callee") or "").split("::")[-1] not in ("try_into", "try_from"):
+                continue
+            ntry += 1
+            k += 1
+            frontier = [t["dest"]["l"]]
+            bad = None
+            for _ in range(3):
+                nxt = []
+                for b2, t2 in b.iter_calls():
+                    if not t2["args"] or t2["args"][0].get("k") not in ("copy", "move") or b.root_of(t2["args"][0]["pl"]["l"])[0] not in frontier:
+                        continue
+                    last = (t2.get("callee") or "").split("::")[-1]
+                    if last in SUBST and INT.match(b.local_ty(t2["dest"]["l"]) or ""):
+                        bad = (last, t2.get("line"))
+                    elif last in ("ok", "map", "and_then", "copied", "cloned"):
+                        nxt.append(t2["dest"]["l"])
+                frontier = nxt
+                if not frontier or bad:
+                    break
+            key = "%s checked narrowing #%d keeps its failure" % (re.sub(r"::\{closure#\d+\}", "", fn), k)
+            if bad:
+                r.fail(key, "the result of a checked integer narrowing is replaced by a value on failure (`%s`, line %s): a code point that "
+                            "does not fit the narrower type becomes 0 (NUL) — a member of `[\\0-\\x7F]` — instead of 'not representable'" % bad,
+                       facts.loc(fn, bad[1]))
+            else:
+                r.ok(key)
+    r.floor("checked_narrowings", ntry, 20)
     return r
